@@ -134,6 +134,9 @@ pub fn gv_body(rng: &mut Rng, max_pair: usize) -> Vec<u8> {
             4 => (rng.pick(&VAR_NAMES).to_ascii_lowercase(), vec![]),                       // wrong case: unknown
             5 => (vec![0xff, 0xfe, b'X'], vec![]),                                           // non-UTF-8
             6 => (b"FCGI_UNKNOWN".to_vec(), vec![]),
+            // names that are NOT one of the three variables but that a sloppy lookup (trimming, flag-set text grammar, prefix or
+            // case-insensitive match) would accept
+            7 if rng.chance(1, 2) => (rng.pick(&[&b"0x07"[..], b"0x1", b"0x3", b" FCGI_MAX_REQS", b"FCGI_MAX_REQS ", b"FCGI_MAX_REQS|", b"|FCGI_MAX_REQS", b"", b" ", b"FCGI_MAX_CONN", b"fcgi_max_reqs", b"MAX_CONNS", b"FCGI_MAX_REQS\0"]).to_vec(), vec![]),   // all <= 15 bytes: a pair must fit the smallest (24-byte) buffer
             _ => (rng.bytes(rng.clone().usize_below(6)), vec![]),
         };
         if name.len() + val.len() <= max_pair { b.extend(nv_enc(&name, &val)); }
@@ -146,9 +149,14 @@ pub fn gv_body(rng: &mut Rng, max_pair: usize) -> Vec<u8> {
     b
 }
 
+/// ids below this value are reserved for a connection's own requests (0 = no reservation; set by `runfam::gen_req`)
+pub static FOREIGN_MIN: std::sync::atomic::AtomicU16 = std::sync::atomic::AtomicU16::new(0);
 /// One noise record legal in the given phase (never the request's own records).
 pub fn noise(rng: &mut Rng, phase: Phase, max_pair: usize) -> Rec {
-    let foreign = |rng: &mut Rng| -> u16 { loop { let i = rng.below(65536) as u16; if Phase::Active(i) != phase { return if rng.chance(1, 6) { 0 } else { i }; } } };
+    // connection families reserve the ids below FOREIGN_MIN for the requests of the connection, so that a foreign-id noise record
+    // can never carry the id of ANOTHER request of the same connection (its CantMpxConn / UnknownType reply would be misattributed)
+    let fmin = FOREIGN_MIN.load(std::sync::atomic::Ordering::Relaxed);
+    let foreign = |rng: &mut Rng| -> u16 { loop { let mut i = rng.below(65536) as u16; if i != 0 && i < fmin { i |= fmin; } if Phase::Active(i) != phase { return if rng.chance(1, 6) { 0 } else { i }; } } };
     let small = |rng: &mut Rng| -> Vec<u8> { let n = match rng.below(4) { 0 => 0, 1 => rng.usize_below(9), _ => rng.usize_below(70) }; rng.bytes(n) };
     match rng.below(10) {
         0..=2 => Rec::new(T_GETVALUES, 0, gv_body(rng, max_pair), pad_bytes(rng)),
